@@ -199,6 +199,35 @@ def negate(t):
     return ast.copy_location(ast.UnaryOp(op=ast.Not(), operand=t), t)
 
 
+def _canon_continue(tree):
+    """E0 normalisation (loop analogue of the guard-clause rule):  inside a loop body
+           if c: S; continue          ==      if c: S
+           REST                               else: REST
+    and with S empty                  ==      if not c: REST."""
+    for lp in [n for n in ast.walk(tree) if isinstance(n, (ast.For, ast.While, ast.AsyncFor))]:
+        changed = True
+        guard = 0
+        while changed and guard < 20:
+            changed = False
+            guard += 1
+            b = lp.body
+            for i, st in enumerate(b[:-1]):
+                if isinstance(st, ast.If) and not st.orelse and st.body and isinstance(st.body[-1], ast.Continue):
+                    rest = b[i + 1:]
+                    pre = st.body[:-1]
+                    if any(isinstance(x, (ast.Continue, ast.Break)) for s_ in pre for x in ast.walk(s_)):
+                        continue
+                    if pre:
+                        st.body = pre
+                        st.orelse = rest
+                    else:
+                        st.test = negate(st.test)
+                        st.body = rest
+                    del b[i + 1:]
+                    changed = True
+                    break
+
+
 def _canon_guard_tail(tree):
     """E0 normalisation:   if c: return E ; S ; return E      ==      if not c: S ; return E
     (an early return that duplicates the function's final return, S free of other exits)."""
@@ -363,6 +392,47 @@ class _InlineLits(ast.NodeTransformer):
         return n
 
 
+def _canon_while(tree):
+    """E0 normalisation:  `i = a;  while i < b: BODY; i += 1`  is stored as  `for i in range(a, b): BODY`  when BODY neither rebinds i nor
+    contains `continue`, and i is not read after the loop (the two forms differ only in the final value of i)."""
+    for fn in [n for n in ast.walk(tree) if isinstance(n, (ast.FunctionDef, ast.AsyncFunctionDef))]:
+        for holder in ast.walk(fn):
+            for fld in ("body", "orelse", "finalbody"):
+                blk = getattr(holder, fld, None)
+                if not isinstance(blk, list):
+                    continue
+                k = 1
+                while k < len(blk):
+                    w, init = blk[k], blk[k - 1]
+                    if isinstance(w, ast.While) and not w.orelse and isinstance(init, ast.Assign) and len(init.targets) == 1 and isinstance(init.targets[0], ast.Name) \
+                            and isinstance(w.test, ast.Compare) and len(w.test.ops) == 1 and isinstance(w.test.ops[0], (ast.Lt, ast.LtE)) \
+                            and isinstance(w.test.left, ast.Name) and w.test.left.id == init.targets[0].id and w.body:
+                        v = init.targets[0].id
+                        last = w.body[-1]
+                        inc = isinstance(last, ast.AugAssign) and isinstance(last.op, ast.Add) and isinstance(last.target, ast.Name) and last.target.id == v \
+                            and isinstance(last.value, ast.Constant) and last.value.value == 1
+                        inc = inc or (isinstance(last, ast.Assign) and isinstance(last.targets[0], ast.Name) and last.targets[0].id == v and
+                                      isinstance(last.value, ast.BinOp) and isinstance(last.value.op, ast.Add) and
+                                      ast.unparse(last.value.left) == v and isinstance(last.value.right, ast.Constant) and last.value.right.value == 1)
+                        rest = w.body[:-1]
+                        rebinds = any(isinstance(x, ast.Name) and x.id == v and isinstance(x.ctx, ast.Store) for b in rest for x in ast.walk(b))
+                        jumps = any(isinstance(x, ast.Continue) for b in rest for x in ast.walk(b))
+                        bound_names = {x.id for x in ast.walk(w.test.comparators[0]) if isinstance(x, ast.Name)}
+                        bound_changes = any(isinstance(x, ast.Name) and x.id in bound_names and isinstance(x.ctx, ast.Store) for b in w.body for x in ast.walk(b))
+                        after = any(isinstance(x, ast.Name) and x.id == v and isinstance(x.ctx, ast.Load) and x.lineno > w.end_lineno for x in ast.walk(fn))
+                        if inc and rest and not rebinds and not jumps and not bound_changes and not after:
+                            hi = w.test.comparators[0]
+                            if isinstance(w.test.ops[0], ast.LtE):
+                                hi = ast.BinOp(left=hi, op=ast.Add(), right=ast.Constant(value=1))
+                            rng = ast.Call(func=ast.Name(id="range", ctx=ast.Load()), args=[init.value, hi], keywords=[])
+                            loop = ast.For(target=ast.Name(id=v, ctx=ast.Store()), iter=rng, body=rest, orelse=[], type_comment=None)
+                            ast.copy_location(loop, w)
+                            ast.fix_missing_locations(loop)
+                            blk[k - 1:k + 1] = [loop]
+                            continue
+                    k += 1
+
+
 def _scope_functions(tree, modname):
     """{scope qualname: {function name: number of parameters}} for module level and each class."""
     out = {}
@@ -398,10 +468,25 @@ def detect_renames(trees):
             pinned = pinned_by_scope.get(scope, {})
             missing = {n: a for n, a in pinned.items() if n not in present and n.startswith("_") and not n.startswith("__")}
             new = {n: a for n, a in present.items() if n not in pinned and n not in pinned_names}
+            import difflib
+            pairs = {}
             for old, ar in missing.items():
                 cands = [n for n, a in new.items() if a == ar]
                 same_ar_missing = [m_ for m_, a in missing.items() if a == ar]
-                if len(cands) == 1 and len(same_ar_missing) == 1 and cands[0] not in ren:
+                if len(cands) == 1 and len(same_ar_missing) == 1:
+                    pairs[old] = cands[0]
+                elif cands and len(cands) == len(same_ar_missing):
+                    # several functions of the same arity renamed at once: pair them by name similarity when that is unambiguous
+                    score = {(m_, c_): difflib.SequenceMatcher(None, m_, c_).ratio() for m_ in same_ar_missing for c_ in cands}
+                    best = max(cands, key=lambda c_: score[(old, c_)])
+                    if all(score[(old, best)] > score[(m_, best)] for m_ in same_ar_missing if m_ != old) and \
+                            all(score[(old, best)] > score[(old, c_)] for c_ in cands if c_ != best) and score[(old, best)] >= 0.5:
+                        pairs[old] = best
+            for old, ar in missing.items():
+                if old not in pairs or pairs[old] in ren:
+                    continue
+                cands = [pairs[old]]
+                if True:
                     ren[cands[0]] = old
                     # the parameters of a renamed function may have been renamed with it: restore them by position
                     newdef = next((n for n in ast.walk(tree) if isinstance(n, (ast.FunctionDef, ast.AsyncFunctionDef)) and n.name == cands[0]), None)
@@ -476,10 +561,12 @@ class Module:
         if renames:
             _Rename(renames).visit(self.tree)
         _drop_noise(self.tree)
+        _canon_while(self.tree)
         _canon_compare(self.tree)
         if os.environ.get("VSA_CANON_LOOPS", "1") == "1":
             _canon_loops(self.tree)
         _canon_guard_tail(self.tree)
+        _canon_continue(self.tree)
         self.literals = _module_literals(self.tree)
         if self.literals:
             _InlineLits(self.literals).visit(self.tree)
